@@ -397,6 +397,9 @@ class Exec:
         if k == "write":
             p = self.path_of(op["path"])
             p.write_bytes(self.doc_bytes(op["doc"]))
+            # the document's own time stamp follows the simulated clock too (a copy that keeps
+            # time stamps, an archive unpacked in one go: same mtime, often same size)
+            os.utime(p, ns=(CLOCK.now_ns, CLOCK.now_ns))
             self.at_path[tuple(op["path"])] = op["doc"]
             self.trace.add("write", op["doc"], op["path"])
             return
